@@ -151,3 +151,12 @@ pub fn union_cal_parts(
 ) -> (&Vec<crate::calendars::Cal>, &Option<Vec<crate::calendars::Cal>>) {
     (&c.calendars, &c.settlement_calendars)
 }
+
+// Curves: read-only projection of the crate-private node map of a `CurveDF`.
+pub fn curvedf_nodes<T, U>(c: &crate::curves::CurveDF<T, U>) -> Vec<(NaiveDateTime, Number)>
+where
+    T: crate::curves::CurveInterpolation,
+    U: crate::calendars::DateRoll,
+{
+    c.nodes.index_map().into_iter().collect()
+}
